@@ -54,7 +54,7 @@ def cells_of(c):
 
 def mk(name, **kw):
     c = dict(name=name, seqs=2, capacity=3, maxbatch=3, w=0, pad=1, maskpad=1, shift=True,
-             permv=False, layers=2, nodes=16, wrap=False)
+             permv=False, layers=2, nodes=16, wrap=False, vdim=1)
     c.update(kw)
     c["cells"] = cells_of(c)
     return c
@@ -67,6 +67,8 @@ CONFIGS = [
     mk("swa1", w=1, capacity=8),
     mk("swa2", w=2, capacity=8, maxbatch=2),
     mk("three", seqs=3, capacity=2, layers=1),
+    # value rows twice as wide as key rows (models with attention.key_length != attention.value_length)
+    mk("vdim2", vdim=2, capacity=4, layers=1),
     mk("permv", permv=True, capacity=4, maxbatch=4, layers=1, nodes=28),
     # WrapperCache(SWA(1), Causal): the generator works with the causal member's capacity
     mk("wrap1", wrap=True, w=1, capacity=3, gen_w=0, gen_cells=6),
